@@ -67,6 +67,29 @@ Fixpoint nondecb (l : list N) : bool :=
 Definition times_ok (ts : list (lock * list N)) : bool := forallb (fun p => nondecb (snd p)) ts.
 Definition lookups_ok (ls : list (marker * marker)) : bool := forallb (fun p => N.eqb (fst p) (snd p)) ls.
 
+(** one commit = one instant: all feed entries (in the user datasets) that carry the marker of one
+    operation have the same recorded time, whichever dataset they are in *)
+Fixpoint zip_mt (ms : list marker) (ts : list N) : list (marker * N) :=
+  match ms, ts with
+  | m :: ms', t :: ts' => (m, t) :: zip_mt ms' ts'
+  | _, _ => []
+  end.
+Definition marker_times (fs : list (lock * list marker)) (ts : list (lock * list N)) : list (marker * N) :=
+  flat_map (fun p => if is_ds (fst p)
+                     then zip_mt (snd p) (snd (hd (fst p, []) (filter (fun q => lock_eqb (fst q) (fst p)) ts)))
+                     else []) fs.
+Fixpoint instants_consistent (seen : list (marker * N)) (l : list (marker * N)) : bool :=
+  match l with
+  | [] => true
+  | (m, t) :: r =>
+      match find (fun q => N.eqb (fst q) m) seen with
+      | Some q => N.eqb (snd q) t && instants_consistent seen r
+      | None => instants_consistent ((m, t) :: seen) r
+      end
+  end.
+Definition instants_ok (fs : list (lock * list marker)) (ts : list (lock * list N)) : bool :=
+  instants_consistent [] (marker_times fs ts).
+
 (** an operation returns an error only if it is refused *)
 Definition op_err (v : variant) (o : op) : bool :=
   match o with
@@ -89,7 +112,7 @@ Definition agree_run (v : variant) (forced : bool) (r : run) : bool :=
       ok &&
       match r_outcome r with
       | 0%N => terminal c' && feeds_match c' (r_feeds r) && snaps_ok (r_feeds r) (r_snaps r) && N.eqb (r_bad r) 0
-               && times_ok (r_times r) && lookups_ok (r_lookups r)
+               && times_ok (r_times r) && lookups_ok (r_lookups r) && instants_ok (r_feeds r) (r_times r)
       | 1%N => stuck c'
       | _ => false
       end)
@@ -175,7 +198,7 @@ Definition spec_run (r : run) : bool :=
   && forallb (feed_spec (r_ops r) (r_errs r)) (r_feeds r)
   && snaps_ok (r_feeds r) (r_snaps r)
   && N.eqb (r_bad r) 0
-  && times_ok (r_times r) && lookups_ok (r_lookups r).
+  && times_ok (r_times r) && lookups_ok (r_lookups r) && instants_ok (r_feeds r) (r_times r).
 Definition spec_ok (c : tcase) : bool := forallb spec_run (c_runs c).
 
 Definition v_sorted_locks : variant := v_order_sorted_core_locks.
